@@ -1,6 +1,6 @@
 (* C15/Registry.v — entry points used by the correspondence check *)
 From Coq Require Import ZArith List String.
-From FV Require Import Base.Ser Base.Res C15.Model C15.ModelDeltas C15.ModelPoints C15.ModelTags.
+From FV Require Import Base.Ser Base.Res C15.Model C15.ModelDeltas C15.ModelPoints C15.ModelTags C15.ModelSstruct.
 Import ListNotations.
 Open Scope string_scope.
 
@@ -22,6 +22,9 @@ Definition reg : registry := [
   ("compilePoints", run1 compilePoints);
   ("decompilePoints", run1 decompilePoints);
   ("tagToIdentifier", run1 tagToIdentifier);
-  ("identifierToTag", run1 identifierToTag)
+  ("identifierToTag", run1 identifierToTag);
+  ("sstruct_pack", run2 sstruct_pack);
+  ("sstruct_unpack", run2 sstruct_unpack);
+  ("sstruct_calcsize", run1 sstruct_calcsize)
 ].
 Definition fv_entry := dispatch reg.
